@@ -60,3 +60,29 @@ Section H.
 End H.
 
 Definition coherent (sh : state * handle) : Prop := snd sh = open_h (fst sh).
+
+(* ---- a failed operation of ANY kind that writes new data, at ANY failure position (wave 4) ----
+   write_row_groups / append / overwrite write their new part files first; the failure comes after `j` of them were created
+   (the last one possibly torn: `torn` replaces its content).  Nothing else has happened: the summary is rewritten and old
+   files are removed / renamed only after all new files exist.  The handle is put back (repo fixes 8453df6, 632495d's twin
+   for single files): its state is the state before the operation.                                                       *)
+Definition op_rgs (o : op) : option (list rgroup) :=
+  match o with
+  | OAppend r | OOverwrite r | OWriteRgs r _ _ => Some r
+  | OWrite _ _ | ORemove _ _ => None
+  end.
+
+Definition written_prefix (es : list entry) (j : nat) (torn : option rows) : list entry :=
+  match torn, rev (firstn j es) with
+  | Some t, last :: before => rev ((fst last, t) :: before)
+  | _, _ => firstn j es
+  end.
+
+Definition fail_op (sh : state * handle) (o : op) (j : nat) (torn : option rows) : state * handle :=
+  let '(s, h) := sh in
+  match op_rgs o, find_max_part (map fst (h_sum h)) with
+  | Some rgs, Some off =>
+    ({| st_dir := put_files (st_sch s) (written_prefix (new_entries off rgs) j torn) (st_dir s);
+        st_sum := st_sum s; st_num := st_num s; st_part := st_part s; st_sch := st_sch s |}, h)
+  | _, _ => sh
+  end.
